@@ -481,7 +481,9 @@ func smallScript(r *Rand, valid bool) string {
 	}
 	text, pos := Render(toks, r.Intn(2), r)
 	if !edited {
-		expectedOf[text] = gd{pos}.program(prog)
+		if e := expectedOrNone(pos, prog); e != "" {
+			expectedOf[text] = e
+		}
 	}
 	return text
 }
